@@ -47,6 +47,10 @@ def run(ctx):
     new = V.function('__new__')
     tiers = []
     lookup_line = None
+    # the locals are identified by what they are bound to, not by their names
+    tn = (X.names_assigned_from(new.node, "kwargs.get('type')") or ['_type'])[0]
+    sn = (X.names_assigned_from(new.node, "kwargs.get('scope')") or ['scope'])[0]
+    nn = (X.names_assigned_from(new.node, "kwargs['name']") or ['name'])[0]
     for st in new.node.body:
         if isinstance(st, ast.If):
             rets = [s for s in st.body if isinstance(s, ast.Return)]
@@ -55,7 +59,7 @@ def run(ctx):
                 tiers.append((t, X.call_name_of(rets[0].value), st.lineno))
             elif '_get_type_from_scope' in ast.unparse(st):
                 lookup_line = st.lineno
-                ok = 'scope is not None' in t and '_type is None' in t
+                ok = f'{sn} is not None' in t and f'{tn} is None' in t
                 (ctx.judge('R1', 'scope look-up when no type given', facts={'test': t}) if ok else
                  ctx.violation('R1', 'Variable.__new__:lookup-guard', f'{new.module.relpath}:{st.lineno}',
                                f'type is fetched from the scope under `{t}` (expected: scope given and no type passed)'))
@@ -67,8 +71,8 @@ def run(ctx):
         ctx.violation('R1', 'Variable.__new__:tier-order', new.where, f'classification order is {got}, expected {EXPECT}', facts=facts)
     else:
         ctx.judge('R1', 'tier order', facts=facts)
-        KEY = {'ProcedureSymbol': ['ProcedureType'], 'DerivedTypeSymbol': ['DerivedType', 'name.lower()', '.dtype.name.lower()'],
-               'Array': ["'dimensions'", '_type.shape'], 'Scalar': ['_type.dtype']}
+        KEY = {'ProcedureSymbol': ['ProcedureType'], 'DerivedTypeSymbol': ['DerivedType', f'{nn}.lower()', '.dtype.name.lower()'],
+               'Array': ["'dimensions'", f'{tn}.shape'], 'Scalar': [f'{tn}.dtype']}
         for t, c, line in tiers:
             if c in KEY:
                 miss = [k for k in KEY[c] if k not in t]
@@ -84,7 +88,7 @@ def run(ctx):
     else:
         ctx.judge('R1', 'look-up precedes tiers')
     kw = [n for n in new.node.body if isinstance(n, ast.Assign) and ast.unparse(n.targets[0]) == "kwargs['type']"]
-    (ctx.judge('R1', 'looked-up type is handed to the constructor') if kw and ast.unparse(kw[0].value) == '_type' else
+    (ctx.judge('R1', 'looked-up type is handed to the constructor') if kw and ast.unparse(kw[0].value) == tn else
      ctx.violation('R1', 'Variable.__new__:kwargs-type', new.where, 'the type found in the scope is not passed on to the symbol constructor'))
 
     # ---- R2
